@@ -195,6 +195,9 @@ func cycleCases(thorough bool) []cycleCase {
 		for _, n := range []int{3, 60, 300} {
 			out = append(out, cycleCase{id: fmt.Sprintf("chain/%s/%d", k, n), fs: chainDoc(k, n, "x-defs"), expect: "same-as:chain/" + k + "/direct", kind: k})
 		}
+		if k == "parameter" || k == "schema" || k == "response" {
+			out = append(out, cycleCase{id: fmt.Sprintf("chain/%s/1100", k), fs: chainDoc(k, 1100, "x-defs"), expect: "depth-error", kind: k})
+		}
 	}
 	return out
 }
@@ -291,7 +294,17 @@ func (m *mon) cycleInProcess(c cycleCase, verbose bool) *Outcome {
 			return out
 		}
 		r.Count("cycle/"+c.kind+"/located-error", 1)
-	case c.expect == "generates":
+	case c.expect == "depth-error":
+		txt := out.ParseText() + out.GenText()
+		switch {
+		case out.Parsed() && out.GenStage == "ok":
+			r.Violate("depth-limit-not-enforced/"+c.kind, fmt.Sprintf("%s: nesting beyond the depth limit is accepted", c.id), w)
+		case !strings.Contains(txt, "depth limit"):
+			r.Violate("depth-diagnostic-missing/"+c.kind+":"+errClass(txt), fmt.Sprintf("%s: error does not name the depth limit: %s", c.id, tail(txt, 300)), w)
+		default:
+			r.Count("depth-limit-error/"+c.kind, 1)
+		}
+	case c.expect == "generates" || c.expect == "ok" || strings.HasPrefix(c.expect, "ok-same:"):
 		if !out.Parsed() || out.GenStage != "ok" {
 			r.Count("schema-cycle/fails", 1)
 			txt := out.ParseText() + out.GenText()
@@ -480,7 +493,8 @@ func (m *mon) workerCases() {
 			add(fmt.Sprintf("w/chain-in-components/%s/2000", k), chainDoc(k, 2000, "components"), "no-crash", k)
 		}
 	}
-	for _, n := range []int{400, 1500, 3000} {
+	// deep inline nesting is the generator-totality property's business; here only around the generator's own depth limit
+	for _, n := range []int{100, 300} {
 		add(fmt.Sprintf("w/deep-inline-arrays/%d", n), deepInline(n), "no-crash", "schema")
 	}
 	// the multi-file cycles once more, read from disk by ogen itself
@@ -583,7 +597,7 @@ func (m *mon) workerCases() {
 			r.Violate("cycle/panic:"+errClass(l.Panic), fmt.Sprintf("%s: panic %s", id, l.Panic), w)
 			continue
 		}
-		if l.CPUms > 60000 {
+		if l.CPUms > 120000 {
 			r.Violate("cpu-ceiling/"+c.kind, fmt.Sprintf("%s: %d ms of CPU", id, l.CPUms), w)
 		}
 		switch {
